@@ -18,11 +18,13 @@ UNBOUND = {"cls": "<unbound>", "bases": [], "ps": [], "val": ""}
 
 
 def universe():
-    from xdsl.dialects.builtin import (ArrayAttr, Float32Type, IndexType, IntAttr, IntegerAttr, IntegerType, Signedness, SignednessAttr, StringAttr, i32, i64)
+    from xdsl.dialects.builtin import (ArrayAttr, Float32Type, FunctionType, IndexType, IntAttr, IntegerAttr, IntegerType, Signedness, SignednessAttr, StringAttr,
+                                       i32, i64)
 
     u = [IntAttr(0), IntAttr(1), IntAttr(32), StringAttr("x"), StringAttr(""), i32, i64, IntegerType(1), IndexType(), Float32Type(),
          IntegerAttr(0, i32), IntegerAttr(1, i32), IntegerAttr(0, i64), IntegerAttr(0, IndexType()), IntegerAttr(-1, i32),
-         ArrayAttr([]), ArrayAttr([i32]), SignednessAttr(Signedness.SIGNLESS)]
+         ArrayAttr([]), ArrayAttr([i32]), SignednessAttr(Signedness.SIGNLESS),
+         FunctionType.from_lists([], []), FunctionType.from_lists([], [i32]), FunctionType.from_lists([i32], [i32]), FunctionType.from_lists([i32], [])]
     return u
 
 
@@ -44,17 +46,34 @@ def gen_tree(rng, depth: int, U, allow_var: bool = True):
         if k == "any":
             return ["any"]
         if k == "base":
-            return ["base", rng.choice(["IntAttr", "StringAttr", "IntegerType", "IndexType", "IntegerAttr", "ArrayAttr", "TypeAttribute", "ParametrizedAttribute", "Data"])]
+            return ["base", rng.choice(["IntAttr", "StringAttr", "IntegerType", "IndexType", "IntegerAttr", "ArrayAttr", "FunctionType", "TypeAttribute", "ParametrizedAttribute", "Data"])]
         if k == "eq":
             return ["eq", rng.randrange(len(U))]
         return ["set", sorted(rng.sample(range(len(U)), rng.randint(1, 3)))]
-    k = rng.choice(["anyof", "anyof", "allof", "param", "param", "var" if allow_var else "anyof"])
+    k = rng.choice(["anyof", "anyof", "anyof_params", "allof", "param", "param", "var" if allow_var else "anyof"])
+    if k == "anyof_params":
+        # alternatives over ONE parametrized class: exercises the merging of unions (relax_constraint)
+        cls = rng.choice(["IntegerAttr", "IntegerAttr", "FunctionType"])
+        def leaf():
+            kk = rng.choice(["any", "any", "eq", "base", "set"])
+            if kk == "any":
+                return ["any"]
+            if kk == "eq":
+                return ["eq", rng.randrange(len(U))]
+            if kk == "base":
+                return ["base", rng.choice(["IntAttr", "IntegerType", "IndexType", "ArrayAttr", "TypeAttribute"])]
+            return ["set", sorted(rng.sample(range(len(U)), 2))]
+        return ["anyof", [["param", cls, [leaf(), leaf()]] for _ in range(rng.randint(2, 3))]]
     if k == "anyof":
         return ["anyof", [gen_tree(rng, depth - 1, U, allow_var) for _ in range(rng.randint(2, 3))]]
     if k == "allof":
         return ["allof", [gen_tree(rng, depth - 1, U, allow_var) for _ in range(2)]]
     if k == "param":
-        cls = rng.choice(["IntegerAttr", "IntegerAttr", "IntegerType"])
+        cls = rng.choice(["IntegerAttr", "IntegerAttr", "IntegerType", "FunctionType", "FunctionType"])
+        if cls == "FunctionType" and allow_var and rng.random() < 0.5:
+            # the same variable on both parameters: all occurrences must be equal
+            v = rng.choice(["T", "U"])
+            return ["param", cls, [["var", v, gen_tree(rng, max(0, depth - 2), U, False)], ["var", v, ["any"]]]]
         return ["param", cls, [gen_tree(rng, depth - 1, U, allow_var) for _ in range(2)]]
     return ["var", rng.choice(["T", "T", "U"]), gen_tree(rng, depth - 1, U, allow_var)]
 
@@ -68,7 +87,7 @@ def classes():
         from xdsl.ir import Data, ParametrizedAttribute, TypeAttribute
 
         CLASSES.update({"IntAttr": B.IntAttr, "StringAttr": B.StringAttr, "IntegerType": B.IntegerType, "IndexType": B.IndexType, "IntegerAttr": B.IntegerAttr,
-                        "ArrayAttr": B.ArrayAttr, "TypeAttribute": TypeAttribute, "ParametrizedAttribute": ParametrizedAttribute, "Data": Data})
+                        "ArrayAttr": B.ArrayAttr, "FunctionType": B.FunctionType, "TypeAttribute": TypeAttribute, "ParametrizedAttribute": ParametrizedAttribute, "Data": Data})
     return CLASSES
 
 
